@@ -188,4 +188,20 @@ CHECKS = {
                  'unretrieved write error of a queued reply on a just-reset link is counted as a probe, not a violation'),
         'technique': 'deterministic simulation (scripted byte sources over simulated TCP with segmentation and teardown faults) + delivery-history oracle',
     },
+    'C16': {
+        'category': 'exploration',
+        'text': ('settings draw (0-2 listening ports, friends, liked/hated interests, favourite rooms x auto_join, invites, reconnect '
+                 'on/off with timeout 1/3/10, 0-2 shared directories scanned at start) x login accepted / rejected / garbled / EOF / '
+                 'silence x ONE server loss (FIN, RST, stall, write error/timeout, requested disconnect) or stop() per run, placed by '
+                 'trigger before login, at every frame index of the post-login burst, while idle, and with a search / a '
+                 'potential-parent connect / a queued download pending. Oracle: post-login frame multiset == f(settings, open '
+                 'listeners, share index); commands refused without session; one SessionDestroyedEvent per session and cleared '
+                 'server-derived state; reconnect iff auto and unrequested non-EOF loss; after stop() no socket, no listener, no '
+                 'later connect, no pending library task.'),
+        'design_ref': 'DESIGN.md section 3 (C16)',
+        'note': ('two open findings are listed in known_findings.json (failed login leaves the link unread; loss/stop during the '
+                 'SessionInitializedEvent dispatch) and matched by narrow facts; the 600 s server read timeout is never reached '
+                 'because every sent ping shifts it (counted as a probe, outside the statement)'),
+        'technique': 'deterministic simulation with frame-indexed fault/stop triggers + settings-derived reference for the login burst and post-stop residue checks',
+    },
 }
